@@ -1,5 +1,5 @@
 SPECIFICATION Spec
-CONSTANTS N = 7  SnapWhen = "before_devices"  NCalls = 2  Rule = "share_cell"  Scene = "reps"
+CONSTANTS N = 7  SnapWhen = "before_devices"  NCalls = 2  Rule = "share_cell"  Scene = "pairq"
 INVARIANT TypeOK
 INVARIANT StateIsFresh
 INVARIANT AllValid
